@@ -47,6 +47,13 @@ struct Scenario {
   std::function<const char *(const void *, const BlockInfo &)> uaf_props;
   // property tags of a deadlock / step-horizon violation (default "C02")
   const char *deadlock_props = "C02";
+  // optional: called (scheduler context, no library calls, no instrumented operations) when every unfinished thread
+  // waits. Returns true if it changed harness state some waiting thread polls (e.g. released "stay alive" threads);
+  // all waiting threads are then made runnable again and no stall round is counted
+  std::function<bool()> on_quiescent;
+  // optional: property tags of a deadlock decided from the monitor state at the moment of the deadlock
+  // (overrides deadlock_props when it returns a non-empty string)
+  std::function<std::string()> deadlock_tags;
   // make every allocation / deallocation of a virtual thread a scheduling point (gives interleavings
   // inside code that touches plain shared data between its atomic steps)
   bool alloc_points = false;
